@@ -27,6 +27,9 @@ type PropConfig struct {
 	LockCheck   bool     `json:"lock_check"`
 	ExtraFuncs  []string `json:"extra_functions"`
 	Disciplines []string `json:"disciplines"`
+	ClosureOf   []string `json:"closure_of"` // add the package-local call-graph closure of these roots
+	Kinds       []string `json:"kinds"`      // keep only obligations of these kinds (plus vacuity)
+	Exclude     []string `json:"exclude_functions"`
 	NotDecided  []string `json:"not_decided"`
 	Assumptions []string `json:"assumptions"`
 	TimeoutMs   int      `json:"timeout_ms"`
@@ -110,6 +113,17 @@ func runCheck(id, repo, verif, tier string, seed int, freeze bool, keep string, 
 		keys = append(keys, k)
 	}
 	keys = append(keys, cfg.ExtraFuncs...)
+	if len(cfg.ClosureOf) > 0 {
+		have := map[string]bool{}
+		for _, k := range keys {
+			have[k] = true
+		}
+		for _, k := range closureOf(d, cfg.ClosureOf) {
+			if !have[k] && !contains(cfg.Exclude, k) {
+				keys = append(keys, k)
+			}
+		}
+	}
 	sort.Strings(keys)
 	dir := keep
 	if dir == "" {
@@ -142,6 +156,20 @@ func runCheck(id, repo, verif, tier string, seed int, freeze bool, keep string, 
 			fvcs = append(fvcs, d.DisciplineHeaderName())
 		default:
 			engineErrs = append(engineErrs, "unknown discipline "+disc)
+		}
+	}
+	if len(cfg.Kinds) > 0 {
+		for _, f := range fvcs {
+			if f.VC == nil {
+				continue
+			}
+			kept := []*Obl{}
+			for _, o := range f.VC.obls {
+				if contains(cfg.Kinds, o.Kind) || o.Kind == "vacuity" {
+					kept = append(kept, o)
+				}
+			}
+			f.VC.obls = kept
 		}
 	}
 	results := solveAll(d, fvcs, dir, timeout, true)
